@@ -1107,6 +1107,13 @@ func (t *TxPublisher) handleInitialTxError(r *monitorRecord, err error) {
 	case errors.Is(err, ErrTxNoOutput):
 		result.Event = TxFailed
 
+		// The fee function may have been moved forward while trying
+		// to create an RBF-compliant tx. Report where it stands so
+		// the retry won't start below a fee rate we've already tried.
+		if r.feeFunction != nil {
+			result.FeeRate = r.feeFunction.FeeRate()
+		}
+
 	// When the error is due to zero fee rate delta, we'll send a TxFailed
 	// so these inputs can be retried in the next block.
 	case errors.Is(err, ErrZeroFeeRateDelta):
